@@ -1135,4 +1135,159 @@ theorem flatRun_inv : ∀ (ops : List Op) (st : St), 0 < st.psize → AllShared 
       (flatExec_allShared st op hs (hops op (List.mem_cons_self)))
       (fun o ho => hops o (List.mem_cons_of_mem _ ho)) (flatExec_inv st op hp hi hc.1) hc.2
 
+/-! ## private windows: page-granular copy-on-write -/
+
+theorem cowPage_mem (ps : Nat) (file : Bytes) (s : Slot) (p q : Nat) :
+    q ∈ (cowPage ps file s p).cow ↔ q = p ∨ q ∈ s.cow := by
+  unfold cowPage
+  split
+  · rename_i h
+    have hp : p ∈ s.cow := by simpa using h
+    constructor
+    · intro h'; exact Or.inr h'
+    · rintro (rfl | h')
+      · exact hp
+      · exact h'
+  · simp
+
+theorem cowFold_mem (ps : Nat) (file : Bytes) (p0 : Nat) : ∀ (cnt : Nat) (s : Slot) (q : Nat),
+    q ∈ ((List.range cnt).foldl (fun s k => cowPage ps file s (p0 + k)) s).cow ↔ (p0 ≤ q ∧ q < p0 + cnt) ∨ q ∈ s.cow
+  | 0, s, q => by
+    simp only [List.range_zero, List.foldl_nil, Nat.add_zero]
+    constructor
+    · intro h; exact Or.inr h
+    · rintro (h | h)
+      · omega
+      · exact h
+  | cnt + 1, s, q => by
+    rw [List.range_succ, List.foldl_append]
+    simp only [List.foldl_cons, List.foldl_nil]
+    rw [cowPage_mem, cowFold_mem ps file p0 cnt s q]
+    constructor
+    · rintro (h | h | h)
+      · left; omega
+      · left; omega
+      · right; exact h
+    · rintro (h | h)
+      · by_cases hq : q = p0 + cnt
+        · left; exact hq
+        · right; left; omega
+      · right; right; exact h
+
+theorem cowPage_geom (ps : Nat) (file : Bytes) (s : Slot) (p : Nat) :
+    (cowPage ps file s p).off = s.off ∧ (cowPage ps file s p).len = s.len ∧ (cowPage ps file s p).priv = s.priv
+      ∧ (cowPage ps file s p).maxlen = s.maxlen := by
+  unfold cowPage; split <;> simp
+
+theorem cowFold_geom (ps : Nat) (file : Bytes) (p0 : Nat) : ∀ (cnt : Nat) (s : Slot),
+    let s1 := (List.range cnt).foldl (fun s k => cowPage ps file s (p0 + k)) s
+    s1.off = s.off ∧ s1.len = s.len ∧ s1.priv = s.priv ∧ s1.maxlen = s.maxlen
+  | 0, s => by simp
+  | cnt + 1, s => by
+    simp only [List.range_succ, List.foldl_append, List.foldl_cons, List.foldl_nil]
+    have h1 := cowFold_geom ps file p0 cnt s
+    have h2 := cowPage_geom ps file ((List.range cnt).foldl (fun s k => cowPage ps file s (p0 + k)) s) (p0 + cnt)
+    simp only [] at h1
+    exact ⟨h2.1.trans h1.1, h2.2.1.trans h1.2.1, h2.2.2.1.trans h1.2.2.1, h2.2.2.2.trans h1.2.2.2⟩
+
+theorem map_range_getD (d : Bytes) : (List.range d.length).map (fun k => d.getD k 0) = d := by
+  apply List.ext_getElem?
+  intro i
+  simp only [List.getElem?_map, List.getD_eq_getElem?_getD]
+  by_cases h : i < d.length
+  · simp [h]
+  · simp [h]
+
+/-- what is stored through a window (private or shared) is what the window shows afterwards -/
+theorem slotRead_slotWrite_same (ps : Nat) (file : Bytes) (s : Slot) (r : Nat) (d : Bytes) :
+    slotRead ps (slotWrite ps file s r d).2 (slotWrite ps file s r d).1 r d.length = d := by
+  cases hd : d with
+  | nil => simp [slotWrite, slotRead, readAt_zero]
+  | cons x xs =>
+    rw [← hd]
+    have hne : d ≠ [] := by rw [hd]; simp
+    by_cases hp : s.priv = true
+    · have hw : slotWrite ps file s r d =
+          ({ (List.range ((r + d.length - 1) / ps + 1 - r / ps)).foldl (fun s k => cowPage ps file s (r / ps + k)) s with
+              ovl := writeAt ((List.range ((r + d.length - 1) / ps + 1 - r / ps)).foldl (fun s k => cowPage ps file s (r / ps + k)) s).ovl r d }, file) := by
+        rw [hd]; simp [slotWrite, hp]
+      rw [hw]
+      have hg := cowFold_geom ps file (r / ps) ((r + d.length - 1) / ps + 1 - r / ps) s
+      simp only [] at hg
+      unfold slotRead
+      simp only [hg.2.2.1, hp, if_true]
+      conv => rhs; rw [← map_range_getD d]
+      apply List.map_congr_left
+      intro k hk
+      have hk' : k < d.length := by simpa using hk
+      have hin : (r + k) / ps ∈ ((List.range ((r + d.length - 1) / ps + 1 - r / ps)).foldl (fun s k => cowPage ps file s (r / ps + k)) s).cow := by
+        rw [cowFold_mem]
+        left
+        have h1 : r / ps ≤ (r + k) / ps := Nat.div_le_div_right (by omega)
+        have h2 : (r + k) / ps ≤ (r + d.length - 1) / ps := Nat.div_le_div_right (by omega)
+        omega
+      simp only [List.contains_iff_mem, hin, if_true]
+      simp only [Array.getD_eq_getD_getElem?, List.getElem?_toArray, List.getD_eq_getElem?_getD, getElem?_writeAt _ _ _ hne]
+      simp [show ¬ r + k < r by omega, show r + k < r + d.length by omega]
+    · have hp' : s.priv = false := by simpa using hp
+      rw [slotWrite_shared _ _ _ _ _ hp']
+      simp only []
+      rw [slotRead_shared _ _ _ _ _ hp', readAt_writeAt_same]
+
+theorem slotWrite_geom (ps : Nat) (file : Bytes) (s : Slot) (r : Nat) (d : Bytes) :
+    (slotWrite ps file s r d).1.off = s.off ∧ (slotWrite ps file s r d).1.len = s.len := by
+  cases d with
+  | nil => simp [slotWrite]
+  | cons x xs =>
+    by_cases hp : s.priv = true
+    · have hg := cowFold_geom ps file (r / ps) ((r + (x :: xs).length - 1) / ps + 1 - r / ps) s
+      simp only [] at hg
+      simp only [slotWrite, hp, if_true]
+      exact ⟨hg.1, hg.2.1⟩
+    · have hp' : s.priv = false := by simpa using hp
+      rw [slotWrite_shared _ _ _ _ _ hp']; exact ⟨rfl, rfl⟩
+
+/-- a request that lies inside the mapped part of the first window is one piece through that window -/
+theorem segs_inside_first (s : Slot) (rest : List Slot) (off n : Nat) (hn : 0 < n) (h1 : s.off ≤ off)
+    (h2 : off + n ≤ s.off + s.len) : segs (s :: rest) 0 off n = [⟨some 0, off, n⟩] := by
+  have hpre : preLen s off n = 0 := by unfold preLen; rw [if_neg (by omega)]
+  have hmid : midLen s off n = n := by
+    unfold midLen; rw [if_pos ⟨hn, h1, by omega⟩]; omega
+  have htail : ∀ k o, segs rest k o 0 = [] := by
+    intro k o; cases rest with
+    | nil => simp [segs, optSeg]
+    | cons a b => simp [segs]
+  unfold segs
+  rw [if_neg (by omega), if_neg (by omega)]
+  simp only [hpre, Nat.add_zero, Nat.sub_zero, hmid, Nat.sub_self, htail, optSeg]
+  simp [hn]
+
+/-- write inside the first window without growth, then read the same range -/
+theorem write_read_first_window (st : St) (s : Slot) (rest : List Slot) (off : Nat) (d : Bytes)
+    (hsl : st.slots = s :: rest) (hd : d ≠ []) (hb : (off : Int) + d.length ≤ offTMax)
+    (h1 : s.off ≤ off) (h2 : off + d.length ≤ s.off + s.len) (hfs : off + d.length ≤ st.fsize)
+    (hmax : st.maxoff = 0 ∨ off + d.length ≤ st.maxoff) :
+    (write st off d).1 = .ok ∧ (write st off d).2.1 = d.length ∧
+      read (write st off d).2.2 off d.length = (.ok, d) := by
+  have hn : 0 < d.length := List.length_pos_iff.mpr hd
+  have hw : write st off d = (.ok, d.length,
+      { st with slots := (slotWrite st.psize st.file s (off - s.off) d).1 :: rest,
+                file := (slotWrite st.psize st.file s (off - s.off) d).2 }) := by
+    unfold write
+    rw [if_neg (by omega)]
+    simp only [Int.toNat_natCast]
+    rw [if_neg (by intro ⟨hm0, hgt⟩; rcases hmax with h | h; exact hm0 h; omega)]
+    simp only [show ¬ (off + d.length > st.fsize) by omega, if_false, ne_eq, not_true_eq_false]
+    rw [hsl, segs_inside_first s rest off d.length hn h1 h2]
+    simp only [writeSegs, writeSeg, List.getElem?_cons_zero, List.take_length, List.set_cons_zero]
+  rw [hw]
+  refine ⟨rfl, rfl, ?_⟩
+  have hg := slotWrite_geom st.psize st.file s (off - s.off) d
+  unfold read
+  rw [if_neg (by omega)]
+  simp only [Int.toNat_natCast]
+  rw [if_neg (by omega), segs_inside_first _ rest off d.length hn (by rw [hg.1]; exact h1) (by rw [hg.1, hg.2]; exact h2)]
+  simp only [List.flatMap_cons, List.flatMap_nil, List.append_nil, readSeg, List.getElem?_cons_zero, hg.1]
+  rw [slotRead_slotWrite_same]
+
 end IwModel.Exf
